@@ -163,6 +163,18 @@ pub fn subjects(tier: Tier) -> Vec<Subject> {
         consts: vec![],
         register: false,
     });
+    out.push(Subject {
+        name: "pub-fn-calls-faulty-pub-fn".into(),
+        src: "pub fn a(x: u8) -> u8 {\n  b(x) + c(x)\n}\npub fn b(y: u8) -> u8 {\n  y + true\n}\npub fn c(z: u8) -> u8 {\n  b(z) + nope\n}\npub fn d(w: u8) -> u8 {\n  c(w)\n}\n".into(),
+        consts: vec![],
+        register: false,
+    });
+    out.push(Subject {
+        name: "absent-party-several-consts".into(),
+        src: "const A: u8 = P::A;\nconst B: u8 = P::B;\nconst C: usize = Q::C;\nconst D: usize = Q::D;\npub fn main(x: [u8; C]) -> u8 {\n  x[0] + A + B + (D as u8)\n}\n".into(),
+        consts: vec![],
+        register: false,
+    });
     // repository examples and the corpus program using every syntactic form
     for (name, text) in c07::corpus(Tier::Quick) {
         if name.starts_with("file:") || name.starts_with("hand:") || name.starts_with("doc:") {
